@@ -26,7 +26,7 @@ type Case struct {
 }
 
 func genCase(t *rapid.T, thorough bool) Case {
-	o := gen.Opts{MinTips: 4, MaxTips: 12, BigTips: 30, Rooted: -1, MaxDeg: 2, Lens: gen.AnyPresence, LenVals: gen.Dyadic, Sups: gen.AnyPresence, InnerNames: gen.AnyPresence, Comments: rapid.Bool().Draw(t, "comments")}
+	o := gen.Opts{MinTips: 4, MaxTips: 12, BigTips: 30, NoOver64: true, Rooted: -1, MaxDeg: 2, Lens: gen.AnyPresence, LenVals: gen.Dyadic, Sups: gen.AnyPresence, InnerNames: gen.AnyPresence, Comments: rapid.Bool().Draw(t, "comments")}
 	if thorough {
 		o.BigTips = 100
 	}
